@@ -41,6 +41,6 @@ var propTable = map[string]propMeta{
 		NotCovered: "descent, wildcard, filters, child, gen/Indexed/reflect container kinds, result order across fragments"},
 	"C11": {Level: "other", Explanation: "Same region contracts as C05 (shared spec functions are the agreement point).",
 		NotCovered: "First/Has/Locate/Walk/GetNodes/FirstNode and non-[]any representations are not yet under contract"},
-	"C02": {Level: "other", Explanation: "Number accumulation contracts of gen.Number: exactness of the uint64 accumulation (no wrap-around for any digit count), no digit lost once the big buffer is in use, plain integers that fit int64 stay in the integer accumulator.",
-		NotCovered: "parsers' inline digit loops, AddFrac/AddExp/AsNum, strings and events not yet under contract"},
+	"C02": {Level: "other", Explanation: "Number accumulation contracts of gen.Number (Reset, FillBig, AddDigit, AddFrac, AddExp, AsNum, AsNode): exactness of the uint64 accumulation (no wrap-around for any digit count), no digit lost once the text form is in use, the text form written by FillBig has every digit of the accumulators (length against spec.Digits10), plain integers that fit int64 stay integers; the accumulator invariant NumInv is carried through the inline digit loops of oj.Parser, oj.Tokenizer and gen.Parser.",
+		NotCovered: "the numeric value returned (float conversion, contents of the text form), correspondence between the digits consumed and the accumulators in the parsers, strings, events"},
 }
